@@ -3,7 +3,10 @@
   `integrate` (point-by-point route with chunking, vectorised route with the
   single-domain shortcut) and `_chunked_iterator`.
 
-  Hand-written; tied to the code by correspondence (harness/props/c18.py).
+  Hand-written; tied to the code by correspondence (harness/props/c18.py) and by the
+  `gen_*_eq_model` theorems of `Props/C18/Gen.lean`, which equate the programs *generated* from
+  ngrid.py (`Gen/NGrid.lean`) with the definitions below; the section "primitives of the
+  generated code" holds what those programs are written in.
   Generic in the point type `α` (a 1-D point is a scalar, a 3-D point a triple — the
   class never looks inside a point) and in the value type `K` (`Add`, `Mul`, `NatCast`
   only: the theorems hold over every commutative semiring, the driver runs at `Float`).
@@ -45,6 +48,9 @@ end numeric
 inductive Err where
   | valueError
   | typeError
+  | indexError
+  /-- not a Python exception: a translated `while True` loop used up its iteration bound -/
+  | nonTermination
   deriving DecidableEq, Repr
 
 /-- `grid.basegrid.Grid`: points and weights. `Grid.__init__` rejects
@@ -165,6 +171,101 @@ def MGrid.integrateVec (g : MGrid α K) (F : List α → List α → List K) : E
         ((0 : Nat) : K)
 
 end integrate
+
+/-! ### Python / NumPy / itertools primitives of the *generated* code (`Gen/NGrid.lean`)
+
+`harness/translate/ngrid.py` translates `MultiDomainGrid.__init__`, the properties
+`num_domains`, `size`, `weights`, `points`, the method `integrate` and the generator
+`_chunked_iterator` statement by statement into programs over these primitives. Generators
+and iterators are lists (the integrand is a function, so laziness is unobservable); whatever
+raises in Python raises here. -/
+
+/-- How the integrand is called by `integrate`: point by point, `f(*point)`, or with the whole
+point array of the last domain as last argument, `f(*pre, X)` (one domain: `f(X)`). -/
+structure Integrand (α K : Type) where
+  pointwise : List α → K
+  vectorised : List α → List α → List K
+
+/-- `len(l)`. -/
+def pyLen (l : List β) : Nat := l.length
+
+/-- `isinstance(x, T)` for a parameter whose type is fixed by the translation (`grid_list` is a
+list, its elements are grids, `num_domains` is an `int` when it is not `None`). -/
+def pyIsInstance {τ : Type} (_x : τ) (_ty : String) : Bool := true
+
+/-- `x is not None` for an `int`-valued property. -/
+def pyIntIsNotNone (_x : Nat) : Bool := true
+
+/-- `l[i]`, negative `i` counts from the end, `IndexError` outside. -/
+def pyIndex (l : List β) (i : Int) : Except Err β :=
+  let j : Int := if 0 ≤ i then i else i + (l.length : Int)
+  if 0 ≤ j then
+    match l[j.toNat]? with
+    | some v => .ok v
+    | none => .error .indexError
+  else .error .indexError
+
+/-- Python slice bound → position (clipped to `0..len`). -/
+def pySliceIdx (len : Nat) (i : Int) : Nat :=
+  if i < 0 then (i + (len : Int)).toNat else min i.toNat len
+
+/-- `l[start:stop]` (`none` = omitted bound). -/
+def pySlice (l : List β) (start stop : Option Int) : List β :=
+  let a := match start with
+    | none => 0
+    | some i => pySliceIdx l.length i
+  let b := match stop with
+    | none => l.length
+    | some i => pySliceIdx l.length i
+  (l.take b).drop a
+
+/-- `itertools.product(*ls)`. -/
+def itertoolsProduct (ls : List (List β)) : List (List β) := product ls
+
+/-- `itertools.product(l, repeat=n)`. -/
+def itertoolsProductRepeat (l : List β) (n : Nat) : List (List β) := product (List.replicate n l)
+
+/-- `islice(iterator, n)` consumed into a list: the first `n` items and the advanced iterator. -/
+def pyIslice (iterator : List β) (n : Nat) : List β × List β := (iterator.take n, iterator.drop n)
+
+/-- `not l` for a list. -/
+def pyNot (l : List β) : Bool := l.isEmpty
+
+def pyZip {γ : Type} (a : List β) (b : List γ) : List (β × γ) := a.zip b
+def pyList (l : List β) : List β := l
+def pyIter (l : List β) : List β := l
+def npArray (l : List β) : List β := l
+
+section
+variable [Add K] [Mul K] [NatCast K]
+/-- `np.prod` of a sequence. -/
+def npProd (xs : List K) : K := prodK xs
+/-- `np.sum` of a 1-D array. -/
+def npSum (xs : List K) : K := sumK xs
+/-- `a * b` for two 1-D arrays (`ValueError` when the lengths differ; broadcasting of a
+one-element array is not modelled). -/
+def npMul (a b : List K) : Except Err (List K) :=
+  if a.length ≠ b.length then .error .valueError else .ok (List.zipWith (· * ·) a b)
+end
+
+/-- One pass of the body of a `while True:` loop inside a generator: `break`, or `yield out`
+and continue with the new loop state. -/
+inductive GenStep (σ β : Type) where
+  | brk
+  | yield (out : β) (next : σ)
+
+/-- `while True: body` of a generator function, collected into the list of yielded values;
+`fuel` bounds the number of passes (running out of it is the error `nonTermination`, never a
+truncated result). -/
+def pyWhileTrue {σ : Type} : Nat → σ → (σ → GenStep σ β) → Except Err (List β)
+  | 0, _, _ => .error .nonTermination
+  | fuel + 1, s, body =>
+    match body s with
+    | .brk => .ok []
+    | .yield out next =>
+      match pyWhileTrue fuel next body with
+      | .ok rest => .ok (out :: rest)
+      | .error e => .error e
 
 /-- Row-major position of a combination of per-domain indices (last index fastest),
 used by the driver to read tabulated integrand values. -/
